@@ -114,8 +114,8 @@ Theorem on_host_or_builder h m a p me u :
   on_host m a None u
   \/ exists r v, In r (m_rules m) /\ admits m r (request_parts m a p) = ADirect _ v
        /\ m_redirect_defaults m = true
-       /\ (r_alias r = true /\ u = h_alias h m a (upper me) r (dict_update v (r_defaults r))
-           \/ h_default h m a (upper me) r (dict_update v (r_defaults r)) = Some u).
+       /\ (r_alias r = true /\ h_alias h m a (upper me) r (dict_update v (r_defaults r)) = BOk u
+           \/ h_default h m a (upper me) r (dict_update v (r_defaults r)) = BOk (Some u)).
 Proof.
   intros Hs H. apply redirect_sound in H. destruct H as [p' Hp ->|r v Hin Ha Hm Hw Hrd Hb].
   - left. apply path_redirect_on_host. exact Hs.
@@ -133,3 +133,275 @@ Lemma ex_evil :
                 ++ [101; 118; 105; 108; 46; 99; 111; 109; 47; 51; 47] ++ [63; 113; 61; 49])
   /\ has (eff_scheme ex_adapter_app) uses_netloc = true.
 Proof. split; vm_compute; reflexivity. Qed.
+
+(* ================================================================== the builder's redirects *)
+From Wz Require Import C04.Model.
+
+Lemma insert_rule_in x l y : In y (insert_rule x l) -> y = x \/ In y l.
+Proof.
+  induction l as [|z l IH]; cbn [insert_rule].
+  - intros [H|[]]. left. symmetry. exact H.
+  - destruct (key_lt (build_key z) (build_key x)).
+    + intros [H|H]; [right; left; exact H|]. destruct (IH H) as [H'|H']; [left; exact H'|right; right; exact H'].
+    + intros [H|H]; [left; symmetry; exact H|right; exact H].
+Qed.
+
+Lemma rules_for_in m e r : In r (rules_for m e) -> In r (m_rules m) /\ r_endpoint r = e.
+Proof.
+  unfold rules_for. intro H.
+  assert (Hf : In r (filter (fun r => r_endpoint r =? e) (m_rules m))).
+  { revert H. generalize (filter (fun r => r_endpoint r =? e) (m_rules m)). intro l.
+    induction l as [|x l IH]; cbn [fold_right]; [intros []|]. intro H. apply insert_rule_in in H.
+    destruct H as [->|H]; [left; reflexivity|right; exact (IH H)]. }
+  apply filter_In in Hf. destruct Hf as [H1 H2]. apply N.eqb_eq in H2. split; assumption.
+Qed.
+
+(* scheme: + // + host + script root, as MapAdapter.build assembles an external URL *)
+Definition build_scheme (a : adapter) (ws_rule : bool) : str :=
+  let secure := list_eqb (a_scheme a) HTTPS || list_eqb (a_scheme a) WSS in
+  if ws_rule then (if secure then WSS else WS)
+  else if is_nil (a_scheme a) then [] else (if secure then HTTPS else HTTP).
+Definition alias_root (m : rmap) (a : adapter) (ws_rule : bool) (dp : str) : str :=
+  (if is_nil (build_scheme a ws_rule) then [] else build_scheme a ws_rule ++ [COLON]) ++ [SLASH; SLASH]
+  ++ get_host m a (Some dp) ++ removelast (script_name a) ++ [SLASH].
+
+Inductive builder_target (m : rmap) (a : adapter) (endpoint : N) (u : str) : Prop :=
+| BT_default r dp path vals :
+    In r (m_rules m) -> r_endpoint r = endpoint -> build_rule r vals = BOk (dp, path) ->
+    u = url_root m a (Some dp) ++ lstrip_slash path ++ query_suffix a -> builder_target m a endpoint u
+| BT_alias r dp path vals :
+    In r (m_rules m) -> r_endpoint r = endpoint -> build_rule r vals = BOk (dp, path) ->
+    u = alias_root m a (r_websocket r) dp ++ lstrip_slash path ++ query_suffix a -> builder_target m a endpoint u.
+
+Lemma default_loop_target m a meth rule0 vals rs u :
+  has (eff_scheme a) uses_netloc = true ->
+  (forall r, In r rs -> In r (m_rules m) /\ r_endpoint r = r_endpoint rule0) ->
+  default_redirect_loop m a meth rule0 vals rs = BOk (Some u) -> builder_target m a (r_endpoint rule0) u.
+Proof.
+  intros Hs. induction rs as [|r rs IH]; intros Hin; cbn [default_redirect_loop]; [discriminate|].
+  destruct (r_idx r =? r_idx rule0); [discriminate|].
+  destruct (provides_defaults_for r rule0 && suitable_for r vals (Some meth)).
+  - destruct (build_rule r (dict_update vals (r_defaults r))) as [[dp path]| |] eqn:Eb; cbn [bbind]; try discriminate.
+    intro H. injection H as <-. destruct (Hin r (or_introl eq_refl)) as [H1 H2].
+    eapply BT_default; [exact H1|exact H2|exact Eb|]. cbn [fst snd]. apply make_redirect_url_shape. exact Hs.
+  - apply IH. intros r' Hr'. apply Hin. right. exact Hr'.
+Qed.
+
+Lemma partial_build_sound rs vals meth r dp path :
+  partial_build rs vals meth = BOk (Some (r, dp, path)) -> In r rs /\ build_rule r vals = BOk (dp, path).
+Proof.
+  induction rs as [|r0 rs IH]; cbn [partial_build]; [discriminate|].
+  destruct (suitable_for r0 vals meth).
+  - destruct (build_rule r0 vals) as [[dp0 path0]| |] eqn:Eb; cbn [bbind]; try discriminate.
+    intro H. injection H as <- <- <-. split; [left; reflexivity|exact Eb].
+  - intro H. destruct (IH H) as [H1 H2]. split; [right; exact H1|exact H2].
+Qed.
+
+Lemma alias_target m a meth rule0 vals u :
+  alias_redirect_url m a meth rule0 vals = BOk u -> builder_target m a (r_endpoint rule0) u.
+Proof.
+  unfold alias_redirect_url, adapter_build.
+  destruct (partial_build (rules_for m (r_endpoint rule0)) vals (Some meth)) as [[[[r dp] path]|]| |] eqn:Ep; cbn [bbind]; try discriminate.
+  apply partial_build_sound in Ep. destruct Ep as [Hin Hb]. apply rules_for_in in Hin. destruct Hin as [H1 H2].
+  cbn [orb negb andb bbind]. intro H. injection H as <-.
+  eapply BT_alias; [exact H1|exact H2|exact Hb|]. unfold alias_root, build_scheme.
+  repeat first [rewrite <- app_assoc | progress cbn [app]]. reflexivity.
+Qed.
+
+(* C12_on_host at full strength *)
+Theorem router_on_host m a p me u :
+  has (eff_scheme a) uses_netloc = true ->
+  router_match m a p me = RedirectTo u ->
+  on_host m a None u
+  \/ exists r v, In r (m_rules m) /\ admits m r (request_parts m a p) = ADirect _ v
+       /\ builder_target m a (r_endpoint r) u.
+Proof.
+  intros Hs H. unfold router_match in H. destruct (on_host_or_builder _ _ _ _ _ _ Hs H) as [Ho|(r & v & Hin & Ha & Hrd & Hb)].
+  - left. exact Ho.
+  - right. exists r, v. split; [exact Hin|]. split; [exact Ha|]. destruct Hb as [[Hal Hu]|Hd].
+    + cbn [router_hooks h_alias] in Hu. exact (alias_target _ _ _ _ _ _ Hu).
+    + cbn [router_hooks h_default] in Hd. unfold get_default_redirect in Hd.
+      eapply default_loop_target; [exact Hs| |exact Hd]. intros r' Hr'. exact (rules_for_in _ _ _ Hr').
+Qed.
+
+(* without host matching every host the router names is the bound server name, possibly behind a subdomain *)
+Lemma get_host_bound m a dp :
+  m_host_matching m = false ->
+  exists sub, get_host m a dp = (if is_nil sub then [] else sub ++ [DOT]) ++ a_server a.
+Proof.
+  intro Hh. unfold get_host. rewrite Hh.
+  destruct (match dp with None => bound_subdomain m a | Some d => Some d end) as [[|c s]|].
+  - exists []. reflexivity.
+  - exists (c :: s). cbn [is_nil]. rewrite <- app_assoc. reflexivity.
+  - exists []. reflexivity.
+Qed.
+
+(* the documented defaults idiom: Rule('/all/', defaults={'page': 1}), Rule('/all/page/<int:page>'), same endpoint,
+   bound to https://example.com/app with ?q=1 : '/all/page/1' is redirected to https://example.com/app/all/?q=1 *)
+Definition ALL : str := [97; 108; 108].
+Definition PAGE : str := [112; 97; 103; 101].
+Definition ex_all : rule :=
+  {| r_idx := 0; r_endpoint := 0; r_dom := SLit []; r_segs := [SLit ALL]; r_tail := None; r_branch := true;
+     r_methods := None; r_strict_opt := None; r_merge_opt := None; r_websocket := false; r_alias := false;
+     r_defaults := [(PAGE, VInt 1)] |}.
+Definition ex_page : rule :=
+  {| r_idx := 1; r_endpoint := 0; r_dom := SLit []; r_segs := [SLit ALL; SLit PAGE; SDyn [] (CInt 0 None None false) PAGE []];
+     r_tail := None; r_branch := false; r_methods := None; r_strict_opt := None; r_merge_opt := None;
+     r_websocket := false; r_alias := false; r_defaults := [] |}.
+Lemma ex_defaults :
+  router_match (mk_map [ex_all; ex_page]) ex_adapter_app ([47] ++ ALL ++ [47] ++ PAGE ++ [47; 49]) GET
+  = RedirectTo ([104; 116; 116; 112; 115; 58; 47; 47] ++ a_server ex_adapter ++ [47; 97; 112; 112; 47] ++ ALL ++ [47; 63; 113; 61; 49])
+  /\ router_match (mk_map [ex_all; ex_page]) ex_adapter_app ([47] ++ ALL ++ [47] ++ PAGE ++ [47; 50]) GET
+     = Match ex_page [(PAGE, VInt 2)].
+Proof. split; vm_compute; reflexivity. Qed.
+
+(* ================================================================== convergence: the target of a
+   slash / merged-slash redirect is admitted directly, with the same arguments, by the rule that
+   caused the redirect *)
+Notation cwalk := (Trie.walk dpart pmatch).
+
+Lemma split_slash_nonempty s : split_slash s <> [].
+Proof.
+  induction s as [|c s IH]; [discriminate|]. cbn [split_slash]. destruct (c =? SLASH); [discriminate|].
+  destruct (split_slash s); discriminate.
+Qed.
+
+Lemma split_slash_snoc s : split_slash (s ++ [SLASH]) = split_slash s ++ [[]].
+Proof.
+  induction s as [|c s IH]; [reflexivity|]. cbn [app split_slash]. destruct (c =? SLASH); rewrite IH; [reflexivity|].
+  pose proof (split_slash_nonempty s) as Hn. destruct (split_slash s) as [|hd tl]; [contradiction|reflexivity].
+Qed.
+
+Lemma join_slash_snoc l : l <> [] -> join_slash (l ++ [[]]) = join_slash l ++ [SLASH].
+Proof.
+  induction l as [|x l IH]; [contradiction|]. intros _. destruct l as [|y l].
+  - cbn [app join_slash]. reflexivity.
+  - change ((x :: y :: l) ++ [[]]) with (x :: ((y :: l) ++ [[]])).
+    change (join_slash (x :: (y :: l) ++ [[]])) with (x ++ SLASH :: join_slash ((y :: l) ++ [[]])).
+    rewrite IH by discriminate. change (join_slash (x :: y :: l)) with (x ++ SLASH :: join_slash (y :: l)).
+    rewrite <- app_assoc. reflexivity.
+Qed.
+
+Lemma starts_with_app p s x : starts_with p s = true -> starts_with p (s ++ x) = true.
+Proof.
+  revert s. induction p as [|c p IH]; intros s H; [reflexivity|]. destruct s as [|d s]; [discriminate|].
+  cbn [starts_with app] in *. apply andb_prop in H. destruct H as [H1 H2]. rewrite H1, (IH _ H2). reflexivity.
+Qed.
+Lemma starts_with_length p s : starts_with p s = true -> (length p <= length s)%nat.
+Proof.
+  revert s. induction p as [|c p IH]; intros s H; [cbn; lia|]. destruct s as [|d s]; [discriminate|].
+  cbn [starts_with] in H. apply andb_prop in H. cbn [length]. pose proof (IH _ (proj2 H)). lia.
+Qed.
+
+Lemma strip_prefix_app p s t x : strip_prefix p s = Some t -> strip_prefix p (s ++ x) = Some (t ++ x).
+Proof.
+  unfold strip_prefix. destruct (starts_with p s) eqn:E; [|discriminate]. intro H. injection H as <-.
+  rewrite (starts_with_app _ _ x E). f_equal. rewrite skipn_app.
+  replace (length p - length s)%nat with O by (pose proof (starts_with_length _ _ E); lia). reflexivity.
+Qed.
+
+Lemma ends_with_slash_snoc t : ends_with_slash (t ++ [SLASH]) = true.
+Proof. unfold ends_with_slash. rewrite rev_unit. apply N.eqb_refl. Qed.
+
+(* a part that is not final looks at its own segment only *)
+Lemma pmatch_nonfinal d p rest :
+  d_final d = false -> d_suffixed d = false ->
+  pmatch d p rest = match pmatch d p [] with Some (g, _) => Some (g, rest) | None => None end.
+Proof.
+  intros Hf Hs. unfold pmatch. rewrite Hf, Hs. destruct (strip_prefix (d_pre d) p) as [t1|]; [|reflexivity].
+  destruct (strip_suffix (d_post d) t1) as [mid|]; [|reflexivity]. destruct (in_lang (d_lang d) mid); reflexivity.
+Qed.
+
+(* a suffixed final part that consumed a path without trailing slash consumes the same text from the
+   path with the slash appended and hands the slash on *)
+Lemma pmatch_suffixed_ext d p rest g :
+  d_final d = true -> d_suffixed d = true ->
+  pmatch d p rest = Some (g, []) -> pmatch d p (rest ++ [[]]) = Some (g, [[]]).
+Proof.
+  intros Hf Hs. unfold pmatch. rewrite Hf, Hs.
+  change (p :: rest ++ [[]]) with ((p :: rest) ++ [[]]). rewrite join_slash_snoc by discriminate.
+  destruct (strip_prefix (d_pre d) (join_slash (p :: rest))) as [t1|] eqn:E; [|discriminate].
+  rewrite (strip_prefix_app _ _ _ [SLASH] E). rewrite ends_with_slash_snoc, removelast_app_one.
+  destruct (ends_with_slash t1) eqn:Ee.
+  - destruct (in_lang (d_lang d) (removelast t1) && negb (ends_with_slash (removelast t1))); discriminate.
+  - destruct (in_lang (d_lang d) t1); [|discriminate]. intro H. injection H as <-. reflexivity.
+Qed.
+
+(* final parts occur only as the last part, and then suffixed *)
+Definition plain (d : dpart) : bool := negb (d_final d) && negb (d_suffixed d).
+Fixpoint snoc_ok (sigma : list (cpart dpart)) : bool :=
+  match sigma with
+  | [] => true
+  | PStatic _ _ :: s' => snoc_ok s'
+  | PDyn _ d :: s' => match s' with
+                     | [] => plain d || (d_final d && d_suffixed d)
+                     | _ :: _ => plain d && snoc_ok s'
+                     end
+  end.
+
+Lemma plain_facts d : plain d = true -> d_final d = false /\ d_suffixed d = false.
+Proof. unfold plain. intro H. apply andb_prop in H. destruct H as [H1 H2]. apply negb_true_iff in H1, H2. auto. Qed.
+
+Lemma walk_snoc sigma : forall P caps,
+  snoc_ok sigma = true -> cwalk sigma P = Some (caps, []) -> cwalk sigma (P ++ [[]]) = Some (caps, [[]]).
+Proof.
+  induction sigma as [|c sigma IH]; intros P caps Hok Hw.
+  - cbn [Trie.walk] in *. injection Hw as <- ->. reflexivity.
+  - destruct c as [k|d]; cbn [Trie.walk] in *; destruct P as [|p ps]; try discriminate; cbn [app].
+    + destruct (list_eqb k p); [|discriminate]. apply IH; [exact Hok|exact Hw].
+    + destruct (pmatch d p ps) as [[g rem]|] eqn:Ep; [|discriminate].
+      destruct (cwalk sigma rem) as [[caps' lo]|] eqn:Ew; [|discriminate]. injection Hw as <- ->.
+      destruct sigma as [|c2 sigma2].
+      * cbn [Trie.walk] in Ew. injection Ew as <- ->. cbn [snoc_ok] in Hok.
+        apply orb_prop in Hok. destruct Hok as [Hp|Hfs].
+        -- destruct (plain_facts _ Hp) as [Hf Hs]. rewrite pmatch_nonfinal in Ep |- * by assumption.
+           destruct (pmatch d p []) as [[g0 r0]|]; [|discriminate]. injection Ep as Hg Hps. subst g ps.
+           cbn [app Trie.walk]. reflexivity.
+        -- apply andb_prop in Hfs. destruct Hfs as [Hf Hs]. rewrite (pmatch_suffixed_ext _ _ _ _ Hf Hs Ep). reflexivity.
+      * cbn [snoc_ok] in Hok. apply andb_prop in Hok. destruct Hok as [Hp Hok]. destruct (plain_facts _ Hp) as [Hf Hs].
+        rewrite pmatch_nonfinal in Ep |- * by assumption. destruct (pmatch d p []) as [[g0 r0]|]; [|discriminate].
+        injection Ep as Hg Hps. subst g rem. rewrite (IH _ _ Hok Ew). reflexivity.
+Qed.
+
+(* rules of the C03 grammar: the path converter only as the trailing segment *)
+Definition seg_isolating (s : seg) : bool := match s with SLit _ => true | SDyn _ c _ _ => conv_isolating c end.
+Definition rule_wf (r : rule) : bool := seg_isolating (r_dom r) && forallb seg_isolating (r_segs r).
+
+Lemma snoc_ok_static_segs l tailp :
+  forallb seg_isolating l = true -> snoc_ok tailp = true ->
+  (forall d t, tailp = PDyn _ d :: t -> t = [] ) ->
+  snoc_ok (map to_cpart (map seg_part l) ++ tailp) = true.
+Proof.
+  intros Hl Ht Hshape. induction l as [|s l IH]; [exact Ht|]. cbn [forallb] in Hl. apply andb_prop in Hl. destruct Hl as [Hs Hl].
+  cbn [map app]. destruct s as [k|pre c n post]; cbn [seg_part to_cpart snoc_ok]; [exact (IH Hl)|].
+  cbn [seg_isolating] in Hs. unfold plain. cbn [d_final d_suffixed]. rewrite Hs. cbn [negb andb orb].
+  destruct (map to_cpart (map seg_part l) ++ tailp) eqn:E; [reflexivity|]. exact (IH Hl).
+Qed.
+
+(* a rule that ends with a slash: its parts are sigma ++ [PStatic ""] with sigma extendable *)
+Lemma branch_parts r :
+  rule_wf r = true -> is_branch r = true ->
+  exists sigma, rparts r = sigma ++ [PStatic _ []] /\ snoc_ok sigma = true.
+Proof.
+  unfold rule_wf. intros Hwf Hb. apply andb_prop in Hwf. destruct Hwf as [Hd Hs].
+  unfold rparts, rule_parts. rewrite Hb. destruct (r_tail r) as [n|].
+  - cbn [tail_parts]. rewrite !map_app. cbn [map to_cpart].
+    exists (to_cpart (seg_part (r_dom r)) :: PStatic _ [] :: map to_cpart (map seg_part (r_segs r))
+            ++ [PDyn _ {| d_pre := []; d_lang := LPath; d_post := []; d_final := negb (conv_isolating CPath); d_suffixed := true; d_weight := path_weight |}]).
+    split; [cbn [app]; rewrite <- app_assoc; reflexivity|].
+    assert (H2 : snoc_ok (PStatic _ [] :: map to_cpart (map seg_part (r_segs r)) ++ [PDyn _ {| d_pre := []; d_lang := LPath; d_post := []; d_final := negb (conv_isolating CPath); d_suffixed := true; d_weight := path_weight |}]) = true).
+    { cbn [snoc_ok]. apply snoc_ok_static_segs; [exact Hs| |].
+      - cbn [snoc_ok d_final d_suffixed]. rewrite (proj2 (proj1 (andb_true_iff _ _) weights_pinned)). reflexivity.
+      - intros d t H. injection H as _ <-. reflexivity. }
+    destruct (r_dom r) as [k|pre c n0 post]; cbn [seg_part to_cpart]; [exact H2|].
+    cbn [seg_isolating] in Hd. change (snoc_ok (PDyn _ ?d :: ?x :: ?y)) with (plain d && snoc_ok (x :: y)).
+    unfold plain. cbn [d_final d_suffixed]. rewrite Hd. cbn [negb andb]. exact H2.
+  - rewrite !map_app. cbn [map to_cpart].
+    exists (to_cpart (seg_part (r_dom r)) :: PStatic _ [] :: map to_cpart (map seg_part (r_segs r))).
+    split; [reflexivity|].
+    assert (H2 : snoc_ok (PStatic _ [] :: map to_cpart (map seg_part (r_segs r))) = true).
+    { cbn [snoc_ok]. rewrite <- (app_nil_r (map to_cpart _)). apply snoc_ok_static_segs; [exact Hs|reflexivity|discriminate]. }
+    destruct (r_dom r) as [k|pre c n0 post]; cbn [seg_part to_cpart]; [exact H2|].
+    cbn [seg_isolating] in Hd. change (snoc_ok (PDyn _ ?d :: ?x :: ?y)) with (plain d && snoc_ok (x :: y)).
+    unfold plain. cbn [d_final d_suffixed]. rewrite Hd. cbn [negb andb]. exact H2.
+Qed.
